@@ -9,6 +9,7 @@ import (
 	"golang.org/x/tools/go/ssa"
 	"os"
 	"path/filepath"
+	"runtime/debug"
 	"sort"
 	"strconv"
 	"strings"
@@ -246,7 +247,7 @@ func main() {
 					c.R.cfg = ""
 					c.R.Unk("PANIC", "checker-panic", "-", "the checker panicked: %v", r)
 					if os.Getenv("LOGGCHECK_DEBUG") != "" {
-						panic(r)
+						fmt.Fprintf(os.Stderr, "%s\n", debug.Stack())
 					}
 				}
 			}()
